@@ -339,6 +339,15 @@ pub struct LinkAttributeParser<'a> {
     pub(super) inner: &'a str,
 }
 
+/// Read-only view of the attribute string still to be parsed, for the
+/// verification harness only (compiled with `--cfg coap_lite_verif`).
+#[cfg(coap_lite_verif)]
+impl<'a> LinkAttributeParser<'a> {
+    pub fn verif_inner(&self) -> &'a str {
+        self.inner
+    }
+}
+
 impl<'a> Iterator for LinkAttributeParser<'a> {
     /// (key_ref: &str, value-ref: Unquote)
     type Item = (&'a str, Unquote<'a>);
